@@ -824,7 +824,7 @@ def parse_produce(o):
 
 def event_value(ev):
     """model event -> the contract value it carries (None if it carries none)"""
-    if ev[0] == 10:
+    if ev[0] in (10, 12):      # 12: a result that omits payloads (outside the honest environment, still a value)
         b = ev[1:]
     elif ev[0] == 11 and ev[1:] != [-1]:
         b = ev[1:]
@@ -919,7 +919,8 @@ def monitor(run):
             if o[0] == 1:
                 last_prod = parse_produce(o)
         # resolved_when_quiescent
-        if i < len(run.idle_after) and run.idle_after[i]:
+        honest = getattr(run, "dishonest_at", None) is None or i < run.dishonest_at
+        if i < len(run.idle_after) and run.idle_after[i] and honest:
             unf = [sid for sid, st in send_step.items() if st <= i and sid not in fired_at]
             why = None
             if stopped_at is not None and i >= stopped_at:
